@@ -466,7 +466,9 @@ def restore_oracle(case, stats=None):
         dc = pc + float(znl @ fx) + rc.sdot(zl, Gs @ x - hs, dims)
         gap = float(snl @ znl) + rc.sdot(sl, zl, dims)
         sc = 1.0 + judge.nrm(pr["c"]) * judge.nrm(x)
-        sc2 = sc + judge.nrm(znl) * (abs(float(fx[0])) + 1.0) + judge.nrm(zl) * (judge.nrm(Gs @ x) + judge.nrm(hs))
+        # f(x) = sum exp(K a_i'x) - rhs is a difference of (possibly huge) numbers: its rounding error is relative to them
+        fmag = float(np.sum(np.exp(pr["K"] * (pr["Aa"] @ x)))) + abs(pr["rhs"])
+        sc2 = sc + judge.nrm(znl) * (fmag + 1.0) + judge.nrm(zl) * (judge.nrm(Gs @ x) + judge.nrm(hs))
         for name, val, s_ in (("primal objective", pc, sc), ("dual objective", dc, sc2),
                               ("gap", gap, judge.nrm(sl) * judge.nrm(zl) + judge.nrm(snl) * judge.nrm(znl))):
             rep = sol.get(name)
